@@ -2186,3 +2186,7 @@ def r10(cx):
                          'print 1, an empty file / `eval ""` print 0 (the documented and POSIX result for a source without commands)',
                          loc=body.loc(s))
     cx.require(n >= 1, 'read_eval_loop_impl never sets the `executed` flag')
+
+
+# --- explanation addendum (generated catalogue in DESIGN.md reads RS.explanation)
+RS.explanation += ' Added later: PATH candidates must be regular files with an execute permission on both systems (R1b); a while/until loop records $? of a body run ended by `continue` (R5d); a source without commands resets $? (R10).'
